@@ -115,7 +115,7 @@ def inproc_part(pid, tier, rng, sc, rep):
         calls_all = [(op, i, p) for op in ("line", "sysline") for i in range(1, n + 1) for p in ("b", "m", "e")]
         calls_all += [(op, n + k, "b") for op in ("line", "sysline") for k in (1, 2)]
         for _ in range(layouts_per_state):
-            lay = textgen.concretise(kinds, nl, rng)
+            lay = textgen.concretise(kinds, nl, rng, notation=rng.choice(textgen.NOTATIONS))
             if lay.size == 0:
                 continue
             fid += 1
